@@ -17,6 +17,7 @@
 """
 from __future__ import annotations
 
+import ast
 from typing import Dict, List, Optional, Set, Tuple
 
 from .. import poly
@@ -147,7 +148,7 @@ def r12a(ctx):
                    f'{sorted(need)}: {wname}(model).cost raises', where(init))
 
 
-def r12b(ctx):
+def r12b(ctx, rule='R12b'):
     repo = ctx.repo
     specs = cost_specs(repo)
     n = 0
@@ -196,15 +197,37 @@ def r12b(ctx):
                     for e in p.events:
                         if e.kind == 'setitem' and e.data[0] == sp:
                             writes.append(show(e.data[1]))
-                ctx.ob('R12b', f'{fn.module.name.split(".")[-1]}.{fn.name} architecture only',
+                        # in-place arithmetic on a value read from the spec: the entries are
+                        # handed out by reference (a features calculator returns its buffer),
+                        # so ``cin = spec['in_features']; cin += 1`` modifies the layer
+                        tgt = None
+                        if e.kind == 'augname':
+                            tgt = e.data[1]
+                        elif e.kind == 'call':
+                            mc = method_call(e.data[0])
+                            if mc and mc[1].endswith('_') and not mc[1].startswith('_'):
+                                tgt = mc[0]
+                        while tgt is not None and method_call(tgt) is not None and \
+                                method_call(tgt)[1] in ('detach', 'view', 'squeeze', 'flatten'):
+                            tgt = method_call(tgt)[0]
+                        t0 = tgt
+                        while t0 is not None and t0[0] == 'sub':
+                            t0 = t0[1]
+                        if tgt is not None and tgt[0] == 'sub' and t0 == sp:
+                            writes.append(f'{show(tgt)} (in place: '
+                                          f'{ast.unparse(e.node)[:40] if e.node else ""})')
+                ctx.ob(rule, f'{fn.module.name.split(".")[-1]}.{fn.name} architecture only',
                        not bad_reads and not writes,
                        'reads hyper-parameters, shapes and precisions only; does not write the '
                        'spec' if not bad_reads and not writes else
                        (f'reads {sorted(set(bad_reads))}: the cost would depend on weight / buffer '
                         f'values' if bad_reads else '') +
                        (f' writes {writes} into the spec it receives (for fixed layers this is '
-                        f'vars(layer))' if writes else ''), where(fn))
-    ctx.floor('R12b', 'cost / constraint functions', n, 40)
+                        f'vars(layer); the values of searchable layers are handed out by '
+                        f'reference, e.g. the buffer of a features calculator, so an in-place '
+                        f'update changes the layer and every later cost)' if writes else ''),
+                       where(fn))
+    ctx.floor(rule, 'cost / constraint functions', n, 40)
 
 
 def ste_classes(ctx) -> List[ClassInfo]:
@@ -601,6 +624,11 @@ def run(ctx):
     r12c(ctx)
     r12d(ctx)
     r12e(ctx)
+    # finiteness of the NE16 cost MPS differentiates (shared with C16 R16a): non-negative,
+    # monotone, and exactly 0 -- not 0/0 -- when no channel has the precision
+    from . import c16
+    from ..costlib import cost_specs as _cs
+    c16.r16a(ctx, _cs(ctx.repo), rule='R12f', only=('ne16_latency',))
 
 
 MANIFEST = {
